@@ -44,7 +44,7 @@ pub struct Replicas;
 /// a job executed step by step: step 0 constructs, steps 1..=n deliver, output() reads
 enum Exec {
     U { node: Box<dyn UNode>, plan: StreamPlan },
-    W { node: Box<dyn WNode>, plan: WPlan, pairs: Vec<(u64, f64)> },
+    W { node: Box<dyn WNode>, plan: WPlan, pairs: Vec<(u64, f64)>, salt: u64 },
     O { sk: Box<dyn FnMut(&[u64]) -> Vec<u64>>, plan: OrdPlan, out: Vec<u64> },
 }
 
@@ -57,10 +57,11 @@ pub fn nsteps(job: &Job) -> usize {
 }
 
 impl Exec {
-    fn construct(job: &Job) -> Exec {
+    /// salt: per replica key of the input HashMaps (each process / thread has its own RandomState keys)
+    fn construct(job: &Job, salt: u64) -> Exec {
         match job {
             Job::U(p) => Exec::U { node: make_unode(&p.spec), plan: p.clone() },
-            Job::W(p) => Exec::W { node: make_wnode(p), plan: p.clone(), pairs: pairs_of(p) },
+            Job::W(p) => Exec::W { node: make_wnode(p), plan: p.clone(), pairs: pairs_of(p), salt },
             Job::O(p) => Exec::O { sk: make_ord(p.hash, p.m, p.l), plan: p.clone(), out: vec![] },
         }
     }
@@ -74,7 +75,7 @@ impl Exec {
                 }
                 SEv::Finish => node.finish(),
             },
-            Exec::W { node, plan, pairs } => {
+            Exec::W { node, plan, pairs, salt } => {
                 let get = |v: &Vec<usize>| -> Vec<(u64, f64)> { v.iter().map(|i| pairs[*i]).collect() };
                 match &plan.events[i - 1] {
                     WEv::Item(k) => node.item(pairs[*k].0, pairs[*k].1),
@@ -89,7 +90,7 @@ impl Exec {
                     }
                     WEv::IdxMap(v) => node.idxmap(&get(v)),
                     WEv::HMap { items, hseed } => {
-                        node.hmap(&get(items), *hseed);
+                        node.hmap(&get(items), *hseed ^ salt.wrapping_mul(0x9E37_79B9_7F4A_7C15));
                     }
                     WEv::HMapStd(v) => {
                         node.hmap_std(&get(v));
@@ -173,15 +174,15 @@ fn perturb(code: u8) {
 }
 
 /// runs the whole job in this thread without a scheduler (child process / reference)
-pub fn run_job_plain(job: &Job) -> Vec<u64> {
-    let mut e = Exec::construct(job);
+pub fn run_job_plain(job: &Job, salt: u64) -> Vec<u64> {
+    let mut e = Exec::construct(job, salt);
     for i in 1..nsteps(job) {
         e.step(i);
     }
     e.output()
 }
 
-pub fn replica_child_main(path: &str) -> i32 {
+pub fn replica_child_main(path: &str, salt: u64) -> i32 {
     let text = match std::fs::read_to_string(path) {
         Ok(t) => t,
         Err(_) => return 2,
@@ -190,7 +191,7 @@ pub fn replica_child_main(path: &str) -> i32 {
         Ok(j) => j,
         Err(_) => return 2,
     };
-    let out = run_job_plain(&job);
+    let out = run_job_plain(&job, salt);
     let s: Vec<String> = out.iter().map(|x| format!("{:x}", x)).collect();
     println!("REPLICA-OUT {}", s.join(","));
     0
@@ -253,7 +254,8 @@ impl Scenario for Replicas {
         let result: Result<(), String> = std::thread::scope(|scope| {
             // replica threads: wait for the token, run exactly one operation, hand the token back
             let mut chans: Vec<(mpsc::Sender<Cmd>, mpsc::Receiver<Result<Option<Vec<u64>>, String>>)> = vec![];
-            for _ in 0..plan.thread_replicas {
+            for tr in 0..plan.thread_replicas {
+                let salt = (plan.inline_replicas + tr) as u64;
                 let (ctx_tx, ctx_rx) = mpsc::channel::<Cmd>();
                 let (done_tx, done_rx) = mpsc::channel();
                 scope.spawn(move || {
@@ -263,7 +265,7 @@ impl Scenario for Replicas {
                             Cmd::Step(i, code) => {
                                 perturb(code);
                                 if i == 0 {
-                                    ex = Some(Exec::construct(job));
+                                    ex = Some(Exec::construct(job, salt));
                                 } else {
                                     ex.as_mut().unwrap().step(i);
                                 }
@@ -290,7 +292,7 @@ impl Scenario for Replicas {
                 if r < plan.inline_replicas {
                     perturb(code);
                     if i == 0 {
-                        inline[r] = Some(Exec::construct(job));
+                        inline[r] = Some(Exec::construct(job, r as u64));
                     } else {
                         inline[r].as_mut().unwrap().step(i);
                     }
@@ -380,6 +382,7 @@ impl Scenario for Replicas {
                 let o = std::process::Command::new(std::env::current_exe().unwrap())
                     .arg("replica")
                     .arg(&path)
+                    .arg((100 + k).to_string())
                     .env("MALLOC_PERTURB_", perturb_byte.to_string())
                     .output()
                     .expect("harness: cannot start replica child");
